@@ -29,6 +29,7 @@ class LockMonitor:
 
     def attach(self, lab):
         self.lab = lab
+        self.lock0 = lab.cs.state.lock       # the lock object must stay the same for the life of the state: replacing it splits the mutual exclusion
         mon = self
         for name in HOOKS:
             for cls in {type(lab.cs.state), S.SyncState}:
@@ -39,6 +40,10 @@ class LockMonitor:
                     def w(self_, *a, _o=orig, _n=name, **k):
                         if not getattr(self_, "_loading", False) and self_ is mon.lab.cs.state and mon.entry is not None:
                             mon.mutations += 1
+                            if self_.lock is not mon.lock0:
+                                v = (mon.entry, _n, "state.lock was replaced by another lock object")
+                                if v not in mon.violations:
+                                    mon.violations.append(v)
                             if not self_.lock._is_owned():
                                 fr = sys._getframe(1)
                                 site = None
@@ -55,6 +60,10 @@ class LockMonitor:
                     setattr(cls, name, w)
 
     def detach(self):
+        if self.lab.cs is not None and self.lab.cs.state.lock is not self.lock0:
+            v = (self.entry or "?", "lock", "state.lock was replaced by another lock object")
+            if v not in self.violations:
+                self.violations.append(v)
         for (cls, name), orig in self.saved.items():
             setattr(cls, name, orig)
         self.saved = {}
@@ -76,6 +85,21 @@ def _engine_factory(params, env=None):
             return {"ok": False, "info": {"why": "base tree did not become quiet"}, "sigdata": {"symptom": "base-not-quiet"}}
         mon.attach(lab)
         h = History(lab, e)
+        # error paths are paths too: one engine-issued provider write fails with a temporary error at a solver-chosen index (0 = none)
+        fail_at = e.choose("fail_write", 4)
+        nwrites = [0]
+        import cloudsync.exceptions as ex
+        for sd, p in enumerate(lab.p):
+            for name in ("create", "upload", "rename", "delete", "mkdir"):
+                orig = getattr(p, name)
+
+                def w(*a, _o=orig, **k):
+                    if not lab.user_mode:
+                        nwrites[0] += 1
+                        if nwrites[0] == fail_at:
+                            raise ex.CloudTemporaryError("injected")
+                    return _o(*a, **k)
+                setattr(p, name, w)
         try:
             first = params.get("first")
             for k in range(params["nops"]):
@@ -96,7 +120,10 @@ def _engine_factory(params, env=None):
                 elif a == "walk":
                     lab.cs.walk()
                 elif a == "busy":
-                    lab.cs.busy
+                    try:
+                        lab.cs.busy
+                    except ex.CloudException:
+                        pass
                 elif a == "change_count":
                     lab.cs.change_count
                 mon.entry = None
